@@ -142,6 +142,42 @@ pub fn run(opts: &Opts) -> Report {
                     };
                     (format!("cut_points(stride={stride:?}, limit={other:?})"), format!("{head} cuts {} {} 0 0 0", opt(stride), opt(other)), impl_line)
                 }
+                3..=5 if rng.chance(1, 12) => {
+                    // the artifact store cannot be written: the summarizer job fails. Whatever it
+                    // managed to do, the job is bracketed by exactly one spawned and one ended frame
+                    // and no checkpoint references a summary that is not there
+                    let blobs = ts.ws.join(".rip/artifacts/blobs");
+                    let parked = ts.ws.join(".rip/artifacts/blobs.parked");
+                    let had = std::fs::rename(&blobs, &parked).is_ok();
+                    let _ = std::fs::create_dir_all(ts.ws.join(".rip/artifacts"));
+                    std::fs::write(&blobs, b"not a directory").unwrap();
+                    let r = store.compaction_auto_v1(
+                        &t,
+                        CompactionAutoV1Request { stride_messages: stride, max_new_checkpoints: other.map(|x| x as u32), dry_run: Some(false), actor_id: "u".into(), origin: "cli".into() },
+                    );
+                    let _ = std::fs::remove_file(&blobs);
+                    if had {
+                        let _ = std::fs::rename(&parked, &blobs);
+                    }
+                    let after = ts.frames();
+                    let appended: Vec<&Value> = after[before.len()..].iter().collect();
+                    let spawned: Vec<&str> = appended.iter().filter(|f| f["type"] == "continuity_job_spawned").filter_map(|f| f["job_id"].as_str()).collect();
+                    let ended: Vec<&str> = appended.iter().filter(|f| f["type"] == "continuity_job_ended").filter_map(|f| f["job_id"].as_str()).collect();
+                    rep.count("op_auto_with_unwritable_artifact_store");
+                    if !spawned.is_empty() {
+                        rep.count("auto_job_failed_midway");
+                    }
+                    if spawned.len() > 1 || spawned != ended {
+                        rep.oracle_failure("C09|failed-job-not-bracketed", &format!("auto-compaction with an unwritable artifact store ({}): job_spawned {:?}, job_ended {:?}", r.as_ref().map(|x| x.status.clone()).unwrap_or_else(|e| format!("Err({e})")), spawned, ended), json!({"case": case_no, "stride": stride, "appended": show_appended(&appended)}));
+                    }
+                    for c in appended.iter().filter(|f| f["type"] == "continuity_compaction_checkpoint_created") {
+                        let a = c["summary_artifact_id"].as_str().unwrap_or("");
+                        if !parked.join(a).is_file() && !blobs.join(a).is_file() {
+                            rep.oracle_failure("C09|summary-unreadable-or-mismatch|failed-job", &format!("a checkpoint frame references summary {a}, which was never stored"), json!({"case": case_no, "appended": show_appended(&appended)}));
+                        }
+                    }
+                    continue;
+                }
                 3..=5 => {
                     let r = store.compaction_auto_v1(
                         &t,
@@ -219,18 +255,49 @@ pub fn run(opts: &Opts) -> Report {
                     // manual checkpoint: at a message boundary, at a non-boundary, by id, by stride
                     let msg_frames: Vec<&&Value> = thread_frames.iter().filter(|f| f["type"] == "continuity_message_appended").collect();
                     let head_seq = thread_frames.last().and_then(|f| f["seq"].as_u64()).unwrap_or(0);
-                    let (to_seq, to_mid, strd) = match rng.below(4) {
+                    let (mut to_seq, mut to_mid, mut strd) = match rng.below(4) {
                         0 if !msg_frames.is_empty() => (rng.pick(&msg_frames)["seq"].as_u64(), None, None),
                         1 => (Some(rng.below(head_seq + 2)), None, None),
                         2 if !msg_frames.is_empty() => (None, rng.pick(&msg_frames)["id"].as_str().map(|s| s.to_string()), None),
                         _ => (None, None, stride),
                     };
+                    // one in three: hand in the summary artifact of an earlier checkpoint (its coverage
+                    // matches only if the target is the same message) or an id that is no summary at all
+                    let earlier: Vec<(String, u64)> = thread_frames.iter().filter(|f| f["type"] == "continuity_compaction_checkpoint_created").filter_map(|f| Some((f["summary_artifact_id"].as_str()?.to_string(), f["to_seq"].as_u64()?))).collect();
+                    let given_artifact: Option<String> = if rng.chance(1, 3) {
+                        if !earlier.is_empty() && rng.chance(4, 5) {
+                            let (a, q) = rng.pick(&earlier).clone();
+                            if rng.chance(1, 2) {
+                                // the same cut again: the one target this summary does cover
+                                to_seq = Some(q);
+                                to_mid = None;
+                                strd = None;
+                            }
+                            Some(a)
+                        } else {
+                            Some("ef".repeat(32))
+                        }
+                    } else {
+                        None
+                    };
                     let r = store.compaction_checkpoint_cumulative_v1(
                         &t,
-                        CompactionCheckpointCumulativeV1Request { summary_markdown: Some("manual summary".into()), summary_artifact_id: None, to_message_id: to_mid.clone(), to_seq, stride_messages: strd, actor_id: "u".into(), origin: "cli".into() },
+                        CompactionCheckpointCumulativeV1Request { summary_markdown: if given_artifact.is_some() { None } else { Some("manual summary".into()) }, summary_artifact_id: given_artifact.clone(), to_message_id: to_mid.clone(), to_seq, stride_messages: strd, actor_id: "u".into(), origin: "cli".into() },
                     );
                     let after = ts.frames();
                     let appended: Vec<&Value> = after[before.len()..].iter().collect();
+                    if let (Some(a), Ok((_, _, q, _, _))) = (&given_artifact, &r) {
+                        // accepted with a summary that was handed in: it must be readable and cover exactly this cut
+                        rep.count("manual_checkpoint_with_given_summary_accepted");
+                        let blob = ts.ws.join(".rip/artifacts/blobs").join(a);
+                        let v = std::fs::read(&blob).ok().and_then(|b| serde_json::from_slice::<Value>(&b).ok());
+                        let text = v.as_ref().map(|v| v.to_string()).unwrap_or_default();
+                        if v.is_none() || !text.contains(&format!("\"to_seq\":{q}")) || !text.contains(t.as_str()) {
+                            rep.oracle_failure("C09|summary-unreadable-or-mismatch|manual", &format!("manual checkpoint at seq {q} accepted the summary artifact {a}, which is unreadable or covers something else"), json!({"case": case_no, "to_seq": q, "artifact": a, "earlier_checkpoints": earlier}));
+                        }
+                    } else if given_artifact.is_some() {
+                        rep.count("manual_checkpoint_with_given_summary_refused");
+                    }
                     // oracle only: a manual checkpoint lands exactly on a message, or is refused silently
                     match r {
                         Ok((_, _, q, mid, _)) => {
